@@ -30,6 +30,7 @@ func checkC02(e *Env) {
 	dist := newDistinct()
 	smp := newSamples(6)
 	ownDiffersFromRef := newCounter()
+	notReturned := newCounter() // generator calls that returned no mnemonic (not this property's subject)
 
 	noteAccepted := func(lang int, toks []string) {
 		mu.Lock()
@@ -102,13 +103,19 @@ func checkC02(e *Env) {
 		lang := x.c.Lang
 		kinds.Inc(x.kind)
 		if f := failure(r); f != "" {
+			if x.kind != "ref" && x.kind != "ref-space-joined" && e.generatorAtFault(drv, &it.Op, r) {
+				// nothing was returned, so there is nothing that must be accepted: whether the
+				// generator may fail here is C01's, C09's and C14's question
+				notReturned.Inc(x.kind + ": " + oneLine(f, 60))
+				return
+			}
 			e.Violate(&Violation{What: "call did not return normally: " + f, Ops: []plan.Op{it.Op}, Observed: r})
 			return
 		}
 		switch x.kind {
 		case "own", "new-default", "new-scripted", "held":
 			if r.Err != nil {
-				e.Violate(&Violation{What: fmt.Sprintf("generator returned error %q for a valid request (%s)", errText(r.Err), x.kind), Ops: []plan.Op{it.Op}, Observed: r})
+				notReturned.Inc(x.kind + ": error " + oneLine(errText(r.Err), 60))
 				return
 			}
 			out := string(unhex(r.Out))
@@ -179,6 +186,9 @@ func checkC02(e *Env) {
 	if e.Violations() == 0 && kinds.Get("new-default") == 0 {
 		fatalInconclusive("C02: no NewMnemonic output was observed")
 	}
+	if nr := notReturned.Total(); e.Violations() == 0 && nr*2 > kinds.Get("own")+kinds.Get("new-default")+kinds.Get("new-scripted")+kinds.Get("held") {
+		fatalInconclusive("C02: the generators returned no mnemonic in %d calls (%v): too little generator output was observed to decide", nr, notReturned.Map())
+	}
 	e.WriteEvidence("exploration", map[string]any{
 		"evaluations":                      stats.Ops,
 		"distinct_nontrivial":              dist.Len(),
@@ -187,13 +197,14 @@ func checkC02(e *Env) {
 		"samples":                          smp.List(),
 		"pairs_by_kind":                    kinds.Map(),
 		"leading_zero_byte_histogram_of_own_pairs": lz.Map(),
-		"corpus_classes":                           classes.Map(),
-		"language_position_word_accepted":          posWordCount,
-		"language_position_word_possible_first_23": possible,
-		"own_output_differs_from_reference":        ownDiffersFromRef.Map(),
-		"calls_inside_histories":                   histCalls,
-		"children":                                 stats.Children,
-		"child_deaths":                             stats.Deaths,
+		"corpus_classes":                            classes.Map(),
+		"language_position_word_accepted":           posWordCount,
+		"language_position_word_possible_first_23":  possible,
+		"own_output_differs_from_reference":         ownDiffersFromRef.Map(),
+		"generator_calls_that_returned_no_mnemonic": notReturned.Map(),
+		"calls_inside_histories":                    histCalls,
+		"children":                                  stats.Children,
+		"child_deaths":                              stats.Deaths,
 	}, []string{
 		"golden lists are the canonical lists; crypto/sha256; the harness reference encoder",
 		"the default randomness source works in this sandbox",
